@@ -24,7 +24,7 @@ ASSUMPTIONS = [
 ]
 
 POOL = ["M204", "M205", "M73", "M117", "G4", "M106", "M900", "M104", "M220"]
-ENTER_LINES = ["M118 E1 enter-a", "M300 S440 P50", "@enterExcludedRegion", "M117 Excluding"]
+ENTER_LINES = ["M118 E1 enter-a", "M300 S440 P50", "@enterExcludedRegion", "M117 Excluding", "M118 path C:\\"]
 EXIT_LINES = ["M118 E1 exit-a", "M300 S880 P20", "@exitExcludedRegion", "M117 Printing again"]
 
 
@@ -63,7 +63,7 @@ def wrap_script(draw, lines):
     """Script text as a user would type it into the settings box."""
     if not lines:
         return draw(st.sampled_from([None, "", "\n", "; nothing\n"]))
-    eol = draw(st.sampled_from(["\n", "\r\n"]))
+    eol = draw(st.sampled_from(["\n", "\n", "\r\n", "\r\n", "\r"]))
     text = ""
     for ln in lines:
         if draw(st.integers(0, 3)) == 0:
@@ -113,6 +113,22 @@ def cases(draw):  # pylint: disable=too-many-locals,too-many-branches,too-many-s
             for _k in range(draw(st.integers(2, 6))):
                 c = draw(st.sampled_from(codes + codes + POOL))
                 prog.append(["g", draw(instance(c))])
+            if len(codes) >= 2 and draw(st.integers(0, 4)) == 0:
+                # two different codes with byte-identical parameter text back to back, then one of them again
+                ca, cb = draw(st.permutations(codes))[:2]
+                if "M117" not in (ca, cb):
+                    v = draw(st.sampled_from([500, 1000, 8]))
+                    prog += [["g", "%s S%d" % (ca, v)], ["g", "%s S%d" % (cb, v)], ["g", "%s T%d" % (cb, v + 20)]]
+            if draw(st.integers(0, 40)) == 0:
+                # a very long stay: over a thousand suppressed commands with configured codes among them (densely around each
+                # 500th), and dozens of distinct instances per code
+                nlong = draw(st.sampled_from([520, 1040, 1600]))
+                for q in range(nlong):
+                    if q % 11 == 3 or (q % 500) > 480:
+                        c = codes[(q // 3) % len(codes)]
+                        prog.append(["g", ("%s L%d" % (c, q)) if c == "M117" else ("%s S%d" % (c, q))])
+                    else:
+                        prog.append(["g", "G1 X%s Y%s" % (gen.fmt(tx + 0.001 * (q % 40)), gen.fmt(ty + 0.001 * (q // 40)))])
             end = draw(st.sampled_from(["out", "out", "disable", "hook", "newprint", "stay", "delete_then_out"]))
             if end == "delete_then_out" and len(rnd.regions) > 1:
                 # the user deletes the region the tool is in; the episode goes on until the next move out
